@@ -1,6 +1,7 @@
 (* Proofs.RLE: the run-length algebra of dvid/volumes.go keeps voxel sets (C18). *)
 From DV Require Import Base.Prelude Base.Int Base.WrapZ Model.Geometry Model.RLE Gen.Consts.
-From Coq Require Import ZifyBool Sorting.Sorted Sorting.Permutation.
+From DV Require Import Proofs.Geometry.
+From Coq Require Import ZifyBool ZifyN ZifyNat Sorting.Sorted Sorting.Permutation.
 Ltac Zify.zify_post_hook ::= Z.div_mod_to_equations.
 Local Open Scope Z_scope.
 
@@ -456,4 +457,402 @@ Proof.
       rewrite <- (normalize_voxels_l splits p Oks). apply existsb_exists. exists s. split; assumption.
   - rewrite E. exists out. split; [reflexivity|]. intro p. rewrite V. cbn [rev app].
     now rewrite !normalize_voxels_l by assumption.
+Qed.
+
+(* ---- Partition ---- *)
+Definition size_ok (s : pt) : Prop :=
+  1 <= px s <= 1073741824 /\ 1 <= py s <= 1073741824 /\ 1 <= pz s <= 1073741824.
+
+Definition piece_ok (sx by_ bz y z : Z) (q : bpiece) : Prop :=
+  py (fst q) = by_ /\ pz (fst q) = bz /\ ry (snd q) = y /\ rz (snd q) = z /\ 1 <= rlen (snd q)
+  /\ px (fst q) * sx <= rx (snd q) /\ rx (snd q) + rlen (snd q) <= (px (fst q) + 1) * sx
+  /\ - 536870912 <= rx (snd q) /\ rx (snd q) + rlen (snd q) <= 536870912.
+
+Lemma part_loop_done fuel bx by_ bz bBegX x y z remain sx :
+  remain < 1 -> part_loop fuel bx by_ bz bBegX x y z remain sx = Ok [].
+Proof. intro H. destruct fuel; cbn [part_loop]; replace (remain <? 1) with true by lia; reflexivity. Qed.
+
+Lemma num_voxels_cons r l : num_voxels (r :: l) = rlen r + num_voxels l.
+Proof. reflexivity. Qed.
+
+Lemma part_loop_spec sx by_ bz y z : 1 <= sx <= 1073741824 ->
+  forall fuel bx bBegX x remain,
+  remain <= Z.of_nat fuel -> bBegX = bx * sx -> bBegX <= x < bBegX + sx ->
+  - 536870912 <= x -> x + remain <= 536870912 ->
+  exists ps, part_loop fuel bx by_ bz bBegX x y z remain sx = Ok ps
+    /\ (forall p, inrs p (map snd ps) = inr p (R x y z remain))
+    /\ Forall (piece_ok sx by_ bz y z) ps
+    /\ num_voxels (map snd ps) = Z.max remain 0.
+Proof.
+  intros Hsx. induction fuel as [|f IH]; intros bx bBegX x remain Hf Hb Hx Hlo Hhi.
+  - exists []. split; [apply part_loop_done; lia|]. repeat split; [|constructor|cbn; lia].
+    intro p. cbn. unfold inr. pdestr. cbn [rx ry rz rlen]. lia.
+  - destruct (Z_lt_le_dec remain 1) as [L|G].
+    { exists []. split; [apply part_loop_done; lia|]. repeat split; [|constructor|cbn; lia].
+      intro p. cbn. unfold inr. pdestr. cbn [rx ry rz rlen]. lia. }
+    cbn [part_loop]. replace (remain <? 1) with false by lia.
+    assert (Bx : - 536870912 <= bx + 1 /\ bx < 536870912) by nia.
+    unw.
+    set (dx := bBegX + sx - x). assert (Hdx : 1 <= dx <= sx) by (unfold dx; lia).
+    destruct (Z_lt_le_dec (remain - dx) 1) as [Last|More].
+    + rewrite part_loop_done by lia.
+      eexists. split; [reflexivity|]. repeat split.
+      * intro p. cbn [map snd]. rewrite inrs_cons, inrs_nil. unfold inr. pdestr. cbn [rx ry rz rlen].
+        destruct (Z.ltb_spec remain dx); lia.
+      * constructor; [|constructor]. unfold piece_ok, px, py, pz; cbn [fst snd rx ry rz rlen].
+        destruct (Z.ltb_spec remain dx); repeat split; try lia; nia.
+      * cbn [map snd]. rewrite num_voxels_cons. cbn [rlen num_voxels fold_right].
+        destruct (Z.ltb_spec remain dx); lia.
+    + destruct (IH (bx + 1) (bBegX + sx) (x + dx) (remain - dx)) as (ps & E & V & F & N);
+        try (unfold dx; lia); try nia.
+      rewrite E. eexists. split; [reflexivity|]. repeat split.
+      * intro p. cbn [map snd]. rewrite inrs_cons, V. unfold inr. pdestr. cbn [rx ry rz rlen].
+        destruct (Z.ltb_spec remain dx); lia.
+      * constructor; [|exact F]. unfold piece_ok, px, py, pz; cbn [fst snd rx ry rz rlen].
+        destruct (Z.ltb_spec remain dx); repeat split; try lia; nia.
+      * cbn [map snd]. rewrite num_voxels_cons, N. cbn [rlen].
+        destruct (Z.ltb_spec remain dx); lia.
+Qed.
+
+Definition block_of (size p : pt) : pt := (px p / px size, py p / py size, pz p / pz size).
+
+(* the run of a piece lies inside the block the piece is filed under *)
+Definition piece_in_block (size : pt) (q : bpiece) : Prop :=
+  forall p, inr p (snd q) = true -> block_of size p = fst q.
+
+Lemma num_voxels_app a b : num_voxels (a ++ b) = num_voxels a + num_voxels b.
+Proof. induction a as [|h t IH]; [reflexivity|]. cbn [app]. rewrite !num_voxels_cons, IH. lia. Qed.
+
+Lemma run_pieces_spec size r : size_ok size -> run_ok r ->
+  exists ps, run_pieces size r = Ok ps
+    /\ (forall p, inrs p (map snd ps) = inr p r)
+    /\ Forall (piece_in_block size) ps
+    /\ Forall run_ok (map snd ps)
+    /\ num_voxels (map snd ps) = rlen r.
+Proof.
+  intros Hs Hr. unfold run_pieces. rewrite chunk_gen_eq.
+  destruct size as [[sx sy] sz]. unfold size_ok, px, py, pz in *; cbn [fst snd] in *.
+  replace ((sx =? 0) || (sy =? 0) || (sz =? 0)) with false by lia.
+  unfold run_ok in Hr. destruct r as [x y z n]. cbn [rx ry rz rlen] in *.
+  rewrite !chunk1_floor by (unfold is32; change (2^31) with 2147483648; lia).
+  cbn [fst snd].
+  assert (Bx : x / sx * sx <= x < x / sx * sx + sx).
+  { pose proof (Z.div_mod x sx ltac:(lia)). pose proof (Z.mod_pos_bound x sx ltac:(lia)). nia. }
+  rewrite w32_id by (unfold is32; change (2^31) with 2147483648; lia).
+  assert (Hsx : 1 <= sx <= 1073741824) by lia.
+  pose proof (part_loop_spec sx (y / sy) (z / sz) y z Hsx (Z.to_nat n) (x / sx) (x / sx * sx) x n) as P.
+  destruct P as (ps & E & V & F & N); try lia.
+  exists ps. split; [exact E|]. repeat split.
+  - exact V.
+  - rewrite Forall_forall in *. intros q Hq. specialize (F q Hq). destruct q as [[[bx by_] bz] q].
+    unfold piece_ok, piece_in_block, block_of, inr, px, py, pz in *; cbn [fst snd] in *.
+    intros [[vx vy] vz]; cbn [fst snd]. intro Hp. destruct q as [qx qy qz qn]; cbn [rx ry rz rlen] in *.
+    assert (vy = y /\ vz = z /\ bx * sx <= vx < (bx + 1) * sx) as (-> & -> & Hv) by lia.
+    destruct F as (-> & -> & _). replace (vx / sx) with bx; [reflexivity|].
+    apply Z.div_unique with (r := vx - bx * sx); lia.
+  - rewrite Forall_forall in *. intros q Hq. apply in_map_iff in Hq as (q' & <- & Hq').
+    specialize (F q' Hq'). unfold piece_ok, run_ok in *. lia.
+  - lia.
+Qed.
+
+Lemma all_pieces_spec size l : size_ok size -> Forall run_ok l ->
+  exists ps, all_pieces size l = Ok ps
+    /\ (forall p, inrs p (map snd ps) = inrs p l)
+    /\ Forall (piece_in_block size) ps
+    /\ Forall run_ok (map snd ps)
+    /\ num_voxels (map snd ps) = num_voxels l.
+Proof.
+  intros Hs. induction 1 as [|r t Hr Ht IH]; cbn [all_pieces].
+  - exists []. repeat split; constructor.
+  - destruct (run_pieces_spec size r Hs Hr) as (a & Ea & Va & Fa & Oa & Na).
+    destruct IH as (b & Eb & Vb & Fb & Ob & Nb). rewrite Ea, Eb.
+    exists (a ++ b). split; [reflexivity|]. rewrite map_app. repeat split.
+    + intro p. now rewrite inrs_app, inrs_cons, Va, Vb.
+    + apply Forall_app; split; assumption.
+    + apply Forall_app; split; assumption.
+    + rewrite num_voxels_cons, <- Na, <- Nb. apply num_voxels_app.
+Qed.
+
+Definition flatten (m : bmap) : list bpiece := concat (map (fun e => map (pair (fst e)) (snd e)) m).
+Definition bmap_voxels (m : bmap) : Z := fold_right (fun e a => num_voxels (snd e) + a) 0 m.
+
+Lemma pt_eqb_eq p q : pt_eqb p q = true <-> p = q.
+Proof.
+  destruct p as [[a b] c], q as [[a' b'] c']. unfold pt_eqb, px, py, pz; cbn [fst snd].
+  split; [intro H; repeat f_equal; lia|intro H; inversion H; subst; lia].
+Qed.
+
+Lemma append_block_perm m b r : Permutation (flatten (append_block m b r)) ((b, r) :: flatten m).
+Proof.
+  induction m as [|[k rs] t IH]; cbn [append_block].
+  - cbn. apply Permutation_refl.
+  - destruct (pt_eqb k b) eqn:E.
+    + apply pt_eqb_eq in E. subst k. unfold flatten. cbn [map concat fst snd].
+      rewrite map_app. cbn [map]. rewrite <- app_assoc. cbn [app].
+      apply Permutation_sym, Permutation_middle.
+    + unfold flatten in *. cbn [map concat fst snd].
+      eapply perm_trans; [apply Permutation_app_head; exact IH|].
+      apply Permutation_sym, Permutation_middle.
+Qed.
+
+Lemma group_perm ps : forall m, Permutation (flatten (fold_left (fun m (q : bpiece) => append_block m (fst q) (snd q)) ps m)) (flatten m ++ ps).
+Proof.
+  induction ps as [|[b r] ps IH]; intro m; cbn [fold_left].
+  - rewrite app_nil_r. apply Permutation_refl.
+  - eapply perm_trans; [apply IH|]. cbn [fst snd].
+    eapply perm_trans; [apply Permutation_app_tail; apply append_block_perm|].
+    cbn [app]. apply Permutation_middle.
+Qed.
+
+Lemma append_block_keys m b r : NoDup (map fst m) ->
+  NoDup (map fst (append_block m b r)) /\ (forall k, In k (map fst (append_block m b r)) -> In k (map fst m) \/ k = b).
+Proof.
+  induction m as [|[k rs] t IH]; cbn [append_block map fst]; intro N.
+  - split; [constructor; [intros []|constructor]|]. intros k [<-|[]]. now right.
+  - inversion N as [|? ? Nk Nt]; subst. destruct (pt_eqb k b) eqn:E; cbn [map fst].
+    + split; [exact N|]. intros k' H. now left.
+    + destruct (IH Nt) as (N' & K'). split.
+      * constructor; [|exact N']. intro H. apply K' in H as [H| ->]; [contradiction|].
+        assert (pt_eqb b b = true) by (apply pt_eqb_eq; reflexivity). congruence.
+      * intros k' [<-|H]; [left; now left|]. apply K' in H as [H|H]; [left; now right|now right].
+Qed.
+
+Lemma group_keys ps : forall m, NoDup (map fst m) ->
+  NoDup (map fst (fold_left (fun m (q : bpiece) => append_block m (fst q) (snd q)) ps m)).
+Proof.
+  induction ps as [|q ps IH]; intros m N; cbn [fold_left]; [exact N|].
+  apply IH. apply append_block_keys. exact N.
+Qed.
+
+Lemma inrs_flatten p m : existsb (fun e => inrs p (snd e)) m = inrs p (map snd (flatten m)).
+Proof.
+  induction m as [|[k rs] t IH]; [reflexivity|]. unfold flatten in *. cbn [existsb map concat fst snd].
+  rewrite map_app, inrs_app, IH. f_equal. rewrite map_map. cbn [snd]. now rewrite map_id.
+Qed.
+
+Lemma voxels_flatten m : bmap_voxels m = num_voxels (map snd (flatten m)).
+Proof.
+  induction m as [|[k rs] t IH]; [reflexivity|]. unfold flatten in *. cbn [bmap_voxels fold_right map concat fst snd].
+  rewrite map_app, num_voxels_app. fold (bmap_voxels t). rewrite IH. f_equal.
+  rewrite map_map. cbn [snd]. now rewrite map_id.
+Qed.
+
+Lemma num_voxels_perm a b : Permutation a b -> num_voxels a = num_voxels b.
+Proof. induction 1; rewrite ?num_voxels_cons; lia. Qed.
+
+Lemma in_flatten m b rs r : In (b, rs) m -> In r rs -> In (b, r) (flatten m).
+Proof.
+  intros Hm Hr. unfold flatten. apply in_concat. exists (map (pair b) rs). split.
+  - apply in_map_iff. exists (b, rs). split; [reflexivity|assumption].
+  - apply in_map. assumption.
+Qed.
+
+(* Partition = disjoint union over blocks *)
+Lemma partition_ok rles size : size_ok size -> Forall run_ok rles ->
+  exists m, partition rles size = Ok m
+    /\ NoDup (map fst m)
+    /\ (forall p, existsb (fun e => inrs p (snd e)) m = inrs p rles)
+    /\ (forall b rs r, In (b, rs) m -> In r rs -> run_ok r /\ forall p, inr p r = true -> block_of size p = b)
+    /\ bmap_voxels m = num_voxels rles.
+Proof.
+  intros Hs Hr. destruct (all_pieces_spec size rles Hs Hr) as (ps & E & V & F & O & N).
+  unfold partition. rewrite E. eexists. split; [reflexivity|].
+  pose proof (group_perm ps []) as P. cbn [flatten map concat app] in P. fold (group_pieces ps) in P.
+  split; [|split; [|split; [|]]].
+  - apply group_keys. constructor.
+  - intro p. rewrite inrs_flatten, <- V. apply inrs_perm. apply Permutation_map. exact P.
+  - intros b rs r H H0. pose proof (in_flatten _ _ _ _ H H0) as I. eapply Permutation_in in I; [|exact P]. split.
+    + rewrite Forall_forall in O. apply O. apply in_map_iff. exists (b, r). split; [reflexivity|exact I].
+    + rewrite Forall_forall in F. exact (F (b, r) I).
+  - rewrite voxels_flatten, <- N. apply num_voxels_perm. apply Permutation_map. exact P.
+Qed.
+
+(* ---- FitToBounds ---- *)
+Lemma fit_run_spec ob r : run_ok r ->
+  match fit_run ob r with
+  | Some r' => run_ok r' /\ forall p, inr p r' = inr p r && inside ob p
+  | None => forall p, inr p r && inside ob p = false
+  end.
+Proof.
+  intro Hr. destruct ob as [mnx mxx mny mxy mnz mxz]. destruct r as [x y z n].
+  unfold run_ok in Hr. cbn [rx ry rz rlen] in Hr.
+  unfold fit_run, inside, ltb_opt, gtb_opt. cbn [minx maxx miny maxy minz maxz rx ry rz rlen].
+  destruct mnz as [mnz|]; [destruct (Z.ltb_spec z mnz); [intros [[? ?] ?]; unfold inr, px, py, pz; cbn [fst snd rx ry rz rlen]; lia|]|];
+  (destruct mxz as [mxz|]; [destruct (Z.ltb_spec mxz z); [intros [[? ?] ?]; unfold inr, px, py, pz; cbn [fst snd rx ry rz rlen]; lia|]|]);
+  (destruct mny as [mny|]; [destruct (Z.ltb_spec y mny); [intros [[? ?] ?]; unfold inr, px, py, pz; cbn [fst snd rx ry rz rlen]; lia|]|]);
+  (destruct mxy as [mxy|]; [destruct (Z.ltb_spec mxy y); [intros [[? ?] ?]; unfold inr, px, py, pz; cbn [fst snd rx ry rz rlen]; lia|]|]).
+  all: destruct mnx as [mnx|]; [unw; destruct (Z.ltb_spec (x + n - 1) mnx);
+        [intros [[? ?] ?]; unfold inr, px, py, pz; cbn [fst snd rx ry rz rlen]; lia|
+         destruct (Z.ltb_spec x mnx); unw]|].
+  all: cbn [rx ry rz rlen]; (destruct mxx as [mxx|];
+        [match goal with |- context [mxx <? ?a] => destruct (Z.ltb_spec mxx a) end;
+         [intros [[? ?] ?]; unfold inr, px, py, pz; cbn [fst snd rx ry rz rlen]; lia|
+          unw; match goal with |- context [mxx <? ?a] => destruct (Z.ltb_spec mxx a) end; unw]|]).
+  all: (split; [unfold run_ok; cbn [rx ry rz rlen]; lia|
+               intros [[? ?] ?]; unfold inr, px, py, pz; cbn [fst snd rx ry rz rlen]; lia]).
+Qed.
+
+Lemma fit_ok rles ob : Forall run_ok rles ->
+  Forall run_ok (fit_to_bounds rles ob) /\ forall p, inrs p (fit_to_bounds rles ob) = inrs p rles && inside_opt ob p.
+Proof.
+  intro H. destruct ob as [ob|]; cbn [fit_to_bounds inside_opt].
+  2:{ split; [assumption|]. intro p. now rewrite andb_true_r. }
+  induction H as [|r t Hr Ht IH]; cbn [filter_map].
+  - split; [constructor|reflexivity].
+  - destruct IH as (IH1 & IH2). pose proof (fit_run_spec ob r Hr) as S.
+    destruct (fit_run ob r) as [r'|].
+    + destruct S as (S1 & S2). split; [constructor; assumption|].
+      intro p. rewrite !inrs_cons, S2, IH2. destruct (inr p r), (inside ob p), (inrs p t); reflexivity.
+    + split; [assumption|]. intro p. rewrite inrs_cons, IH2. specialize (S p).
+      destruct (inr p r), (inside ob p), (inrs p t); try reflexivity; discriminate.
+Qed.
+
+(* the code as it stands loses every run when the bounds are nil *)
+Lemma fit_orig_refuted :
+  exists rles p, Forall run_ok rles /\
+    inrs p (fit_to_bounds_orig rles None) <> inrs p rles && inside_opt None p.
+Proof.
+  exists [R 0 0 0 1], (0, 0, 0). split; [repeat constructor; cbn; lia|]. vm_compute. discriminate.
+Qed.
+Lemma fit_orig_some rles ob : fit_to_bounds_orig rles (Some ob) = fit_to_bounds rles (Some ob).
+Proof. reflexivity. Qed.
+
+(* ---- Add ---- *)
+Lemma add_scan_spec r2 : run_ok r2 -> forall l, Forall run_ok l ->
+  match add_scan l r2 with
+  | Some (l', n) => Forall run_ok l' /\ forall p, inrs p l' = inrs p l || inr p r2
+  | None => True
+  end.
+Proof.
+  intros H2. induction 1 as [|r t Hr Ht IH]; cbn [add_scan]; [exact I|].
+  assert (Cont : match match add_scan t r2 with Some (tl', n) => Some (r :: tl', n) | None => None end with
+                 | Some (l', _) => Forall run_ok l' /\ forall p, inrs p l' = inrs p (r :: t) || inr p r2
+                 | None => True end).
+  { destruct (add_scan t r2) as [[tl' n]|]; [|exact I]. destruct IH as (I1 & I2).
+    split; [constructor; assumption|]. intro p. rewrite !inrs_cons, I2. now rewrite orb_assoc. }
+  destruct ((ry r =? ry r2) && (rz r =? rz r2)) eqn:Row; [|exact Cont].
+  unfold run_ok in Hr, H2. destruct r as [x y z n], r2 as [x2 y2 z2 n2]. cbn [rx ry rz rlen] in *. unw.
+  destruct (Z.ltb_spec (x + n - 1) x2); [exact Cont|].
+  destruct (Z.ltb_spec (x2 + n2 - 1) x); [exact Cont|].
+  destruct (Z.ltb_spec x2 x); destruct (Z.ltb_spec (x + n - 1) (x2 + n2 - 1)); unw.
+  all: split; [constructor; [unfold run_ok; cbn [rx ry rz rlen]; lia|assumption]|].
+  all: intros [[? ?] ?]; rewrite !inrs_cons; unfold inr, px, py, pz; cbn [fst snd rx ry rz rlen];
+       destruct (inrs _ t); lia.
+Qed.
+
+Lemma add_runs_spec rles2 : Forall run_ok rles2 -> forall l added, Forall run_ok l ->
+  Forall run_ok (fst (add_runs l rles2 added))
+  /\ forall p, inrs p (fst (add_runs l rles2 added)) = inrs p l || inrs p rles2.
+Proof.
+  induction 1 as [|r2 t H2 Ht IH]; intros l added Hl; cbn [add_runs].
+  - split; [assumption|]. intro p. now rewrite orb_false_r.
+  - pose proof (add_scan_spec r2 H2 l Hl) as S. destruct (add_scan l r2) as [[l' n]|].
+    + destruct S as (S1 & S2). destruct (IH l' (wS 64 (added + n)) S1) as (I1 & I2).
+      split; [assumption|]. intro p. rewrite I2, S2, inrs_cons. now rewrite orb_assoc.
+    + destruct (IH (l ++ [r2]) (wS 64 (added + rlen r2))) as (I1 & I2).
+      { apply Forall_app. split; [assumption|constructor; [assumption|constructor]]. }
+      split; [assumption|]. intro p. rewrite I2, inrs_app, !inrs_cons, inrs_nil, orb_false_r. now rewrite orb_assoc.
+Qed.
+
+(* the documented meaning of the count (voxels not already present) fails when a run bridges two *)
+Lemma add_count_refuted :
+  exists l l2, Forall run_ok l /\ Forall run_ok l2 /\ pairwise_disjoint l /\
+    snd (add l l2) = 3 /\
+    let count l := Z.of_nat (length (filter (fun x => inrs (Z.of_nat x, 0, 0) l) (seq 0 20))) in
+    (forall p, inrs p (fst (add l l2)) = true -> py p = 0 /\ pz p = 0 /\ 0 <= px p < 20) /\
+    count (fst (add l l2)) - count l = 1.
+Proof.
+  exists [R 0 0 0 4; R 5 0 0 4], [R 2 0 0 5].
+  split; [repeat constructor; cbn; lia|]. split; [repeat constructor; cbn; lia|].
+  split; [repeat constructor; intros [[x y] z]; unfold inr, px, py, pz; cbn [fst snd rx ry rz rlen]; lia|].
+  split; [vm_compute; reflexivity|]. split; [|vm_compute; reflexivity].
+  intros [[x y] z]. vm_compute fst. rewrite !inrs_cons, inrs_nil. unfold inr, px, py, pz; cbn [fst snd rx ry rz rlen]. lia.
+Qed.
+
+(* ---- binary encoding ---- *)
+Definition run32 (r : rle) : Prop := is32 (rx r) /\ is32 (ry r) /\ is32 (rz r) /\ is32 (rlen r).
+
+Lemma le32_length v : length (le32 v) = 4%nat.
+Proof. apply le_enc_length. Qed.
+
+Lemma rd32_le32 v : is32 v -> rd32 (le32 v) = v.
+Proof.
+  intro H. unfold rd32, le32. rewrite le_dec_enc.
+  - rewrite Z2N.id by apply u32_range. apply w32_u32. exact H.
+  - pose proof (u32_range v). change (2^32) with 4294967296 in *. change (256 ^ N.of_nat 4)%N with 4294967296%N. lia.
+Qed.
+
+Lemma firstn_exact {A} (a b : list A) n : length a = n -> firstn n (a ++ b) = a.
+Proof. intros <-. rewrite firstn_app, Nat.sub_diag, firstn_all. cbn. apply app_nil_r. Qed.
+Lemma skipn_exact {A} (a b : list A) n : length a = n -> skipn n (a ++ b) = b.
+Proof. intros <-. rewrite skipn_app, Nat.sub_diag, skipn_all. reflexivity. Qed.
+
+Lemma skipn_add {A} (l : list A) a b : skipn (a + b) l = skipn b (skipn a l).
+Proof. revert l. induction a as [|a IH]; intro l; [reflexivity|]. destruct l; [now rewrite !skipn_nil|]. cbn. apply IH. Qed.
+
+Lemma marshal_run_length r : length (marshal_run r) = 16%nat.
+Proof. unfold marshal_run. rewrite !app_length, !le32_length. reflexivity. Qed.
+
+Lemma unmarshal_marshal_run r : run32 r -> unmarshal_run (marshal_run r) = Ok r.
+Proof.
+  intros (Hx & Hy & Hz & Hn). unfold unmarshal_run. rewrite marshal_run_length. cbn [Nat.eqb negb].
+  unfold marshal_run.
+  rewrite (firstn_exact (le32 (rx r))) by apply le32_length.
+  change 12%nat with (4 + (4 + 4))%nat. change 8%nat with (4 + 4)%nat. rewrite !skipn_add.
+  rewrite !(skipn_exact (le32 (rx r))) by apply le32_length.
+  rewrite (firstn_exact (le32 (ry r))) by apply le32_length.
+  rewrite !(skipn_exact (le32 (ry r))) by apply le32_length.
+  rewrite (firstn_exact (le32 (rz r))) by apply le32_length.
+  rewrite !(skipn_exact (le32 (rz r))) by apply le32_length.
+  rewrite <- (app_nil_r (le32 (rlen r))).
+  rewrite (firstn_exact (le32 (rlen r))) by apply le32_length.
+  rewrite !rd32_le32 by assumption. destruct r; reflexivity.
+Qed.
+
+Lemma read_runs_marshal l : Forall run32 l -> forall extra,
+  read_runs (length l) (marshal l ++ extra) = Ok l.
+Proof.
+  induction 1 as [|r t Hr Ht IH]; intro extra; [reflexivity|].
+  cbn [length read_runs marshal map concat]. fold (marshal t). rewrite <- app_assoc.
+  replace (Nat.ltb (length (marshal_run r ++ marshal t ++ extra)) 16) with false.
+  2:{ symmetry. apply Nat.ltb_ge. rewrite app_length, marshal_run_length. lia. }
+  rewrite (firstn_exact (marshal_run r)) by apply marshal_run_length.
+  rewrite (skipn_exact (marshal_run r)) by apply marshal_run_length.
+  rewrite unmarshal_marshal_run by assumption. now rewrite IH.
+Qed.
+
+Lemma marshal_length l : length (marshal l) = (16 * length l)%nat.
+Proof.
+  induction l as [|r t IH]; [reflexivity|]. cbn [marshal map concat length]. fold (marshal t).
+  rewrite app_length, marshal_run_length, IH. lia.
+Qed.
+
+Lemma unmarshal_marshal l : Forall run32 l -> unmarshal (marshal l) = Ok l.
+Proof.
+  intro H. unfold unmarshal. rewrite marshal_length.
+  replace (Nat.modulo (16 * length l) 16) with 0%nat by (rewrite Nat.mul_comm; symmetry; apply Nat.mod_mul; lia).
+  cbn [Nat.eqb negb]. replace (Nat.div (16 * length l) 16) with (length l) by (rewrite Nat.mul_comm, Nat.div_mul; lia).
+  rewrite <- (app_nil_r (marshal l)). now apply read_runs_marshal.
+Qed.
+
+(* the stream ReadRLEs consumes: 8 header bytes starting with EncodingBinary, the little-endian
+   run count, the runs, then anything *)
+Lemma read_rles_ok hdr l extra : Forall run32 l -> length hdr = 7%nat -> (N.of_nat (length l) < 2 ^ 32)%N ->
+  read_rles ((n_EncodingBinary :: hdr) ++ le_enc 4 (N.of_nat (length l)) ++ marshal l ++ extra) = Ok l.
+Proof.
+  intros H Hh Hl. unfold read_rles.
+  replace (Nat.ltb (length ((n_EncodingBinary :: hdr) ++ le_enc 4 (N.of_nat (length l)) ++ marshal l ++ extra)) 8) with false.
+  2:{ symmetry. apply Nat.ltb_ge. rewrite app_length. cbn [length]. lia. }
+  cbn [app]. rewrite N.eqb_refl. cbn [negb].
+  change (n_EncodingBinary :: hdr ++ le_enc 4 (N.of_nat (length l)) ++ marshal l ++ extra)
+    with ((n_EncodingBinary :: hdr) ++ le_enc 4 (N.of_nat (length l)) ++ marshal l ++ extra).
+  rewrite (skipn_exact (n_EncodingBinary :: hdr)) by (cbn [length]; lia).
+  replace (Nat.ltb (length (le_enc 4 (N.of_nat (length l)) ++ marshal l ++ extra)) 4) with false.
+  2:{ symmetry. apply Nat.ltb_ge. rewrite app_length, le_enc_length. lia. }
+  rewrite (firstn_exact (le_enc 4 (N.of_nat (length l)))) by apply le_enc_length.
+  rewrite (skipn_exact (le_enc 4 (N.of_nat (length l)))) by apply le_enc_length.
+  rewrite le_dec_enc by (change (256 ^ N.of_nat 4)%N with (2 ^ 32)%N; exact Hl).
+  replace (N.of_nat (length (marshal l ++ extra)) <? 16 * N.of_nat (length l))%N with false.
+  2:{ symmetry. apply N.ltb_ge. rewrite app_length, marshal_length. lia. }
+  rewrite Nat2N.id. now apply read_runs_marshal.
 Qed.
